@@ -1056,6 +1056,19 @@ static void c17_hash_one (ProgSpec *ps, long caseidx)
     a = orc_program_get_asm_code (p);
     if (a) for (; *a; a++) h = (h ^ (unsigned char) *a) * 1099511628211ULL;
     vh_set_addf ("c17hash", "%ld:%s:%016llx", caseidx, t->name, (unsigned long long) h);
+    /* what a differing hash is made of (only used for the witness text) */
+    vh_set_addf ("c17info", "%ld:%s:result %#x, %d code bytes, listing %s%s", caseidx, t->name, (unsigned) res, (p->orccode && ORC_COMPILE_RESULT_IS_SUCCESSFUL (res)) ? p->orccode->code_size : 0,
+        orc_program_get_asm_code (p) ? "present" : "absent", orc_program_get_error (p) ? orc_program_get_error (p) : "");
+    if (getenv ("C17_DUMPDIR") && getenv ("ORC_CODE")) {
+      /* debugging aid: everything the hash is made of, one file per (case, target, number of shards) */
+      char fn[300]; FILE *f; snprintf (fn, sizeof fn, "%s/%ld-%s-%d.txt", getenv ("C17_DUMPDIR"), caseidx, t->name, vh_args.nshards);
+      f = fopen (fn, "w"); if (f) { fprintf (f, "result %#x error %s\n%s\n", (unsigned) res, orc_program_get_error (p) ? orc_program_get_error (p) : "-", orc_program_get_asm_code (p) ? orc_program_get_asm_code (p) : "(no listing)");
+        if (p->orccode && p->orccode->code) for (i = 0; i < p->orccode->code_size; i++) fprintf (f, "%02x%s", p->orccode->code[i], (i & 31) == 31 ? "\n" : ""); fclose (f); }
+    }
+    if (getenv ("C17_DUMP") && atol (getenv ("C17_DUMP")) == caseidx) {
+      char fn[64]; FILE *f; snprintf (fn, sizeof fn, "c17dump-%s-%d.txt", t->name, (int) getpid ());
+      f = fopen (fn, "w"); if (f) { fprintf (f, "result %#x error %s\n%s\n", (unsigned) res, orc_program_get_error (p) ? orc_program_get_error (p) : "-", orc_program_get_asm_code (p) ? orc_program_get_asm_code (p) : "(no listing)"); fclose (f); }
+    }
     orc_program_free (p);
   }
 }
